@@ -120,8 +120,78 @@ theorem finishChildren_spec (g : GSpec) (raw : List DNA) (st : St) (out : Pop) (
   rw [hr.1]
   exact ⟨hv, ha, by omega, by omega⟩
 
-theorem OO_orderProposals (pts : List (Option Nat × Nat)) (x y : DNA) : OO (orderProposals pts x y) := by
-  unfold orderProposals
+theorem OO_cutPoints (n : Nat) : OO (cutPoints n) := by
+  unfold cutPoints
+  apply OO.bind (OO_nextSample _ _)
+  intro ab
+  rcases ab with _ | ⟨a, _ | ⟨b, _ | ⟨c, r⟩⟩⟩
+  · exact OO.fail _
+  · exact OO.fail _
+  · exact OO.pure _
+  · exact OO.fail _
+
+theorem OO_permuteOrder (vx vy : List Nat) : OO (permuteOrder vx vy) := by
+  unfold permuteOrder
+  exact OO.bind (OO_cutPoints _) (fun _ => OO.pure _)
+
+theorem OO_permutePMX (vx vy : List Nat) : OO (permutePMX vx vy) := by
+  unfold permutePMX
+  apply OO.bind (OO_cutPoints _)
+  intro se
+  cases pmxChild vx vy se.1 se.2 with
+  | none => exact OO.fail _
+  | some c0 =>
+    cases pmxChild vy vx se.1 se.2 with
+    | none => exact OO.fail _
+    | some c1 => exact OO.pure _
+
+theorem OO_cycleLoop (p0 p1 : List Nat) : ∀ (is : List Nat) (ch : Kids), OO (cycleLoop p0 p1 is ch) := by
+  intro is
+  induction is with
+  | nil => intro ch; simp only [cycleLoop]; exact OO.pure _
+  | cons i is ih =>
+    intro ch
+    simp only [cycleLoop]
+    split
+    · exact ih _
+    · apply OO.bind (OO_nextIdx _ _)
+      intro c
+      cases cyclePick p0 p1 (2 * p0.length + 2) c 0 i ch with
+      | none => exact OO.fail _
+      | some ch' => exact ih _
+
+theorem OO_permuteCycle (vx vy : List Nat) : OO (permuteCycle vx vy) := by
+  unfold permuteCycle
+  apply OO.bind (OO_cycleLoop _ _ _ _)
+  intro ch
+  cases allSomeNat ch.1 with
+  | none => exact OO.fail _
+  | some c0 =>
+    cases allSomeNat ch.2 with
+    | none => exact OO.fail _
+    | some c1 => exact OO.pure _
+
+theorem OO_place (loc : Option Nat) (x y : DNA) (c0 c1 : List Nat) : OO (place loc x y c0 c1) := by
+  unfold place
+  cases loc with
+  | none => exact OO.pure _
+  | some j =>
+    simp only []
+    cases elemOf x j with
+    | none => exact OO.fail _
+    | some ex =>
+      cases elemOf y j with
+      | none => exact OO.fail _
+      | some ey =>
+        simp only []
+        split
+        · exact OO.pure _
+        · exact OO.fail _
+
+theorem OO_permProposals (permute : List Nat → List Nat → M (List Nat × List Nat))
+    (hp : ∀ vx vy, OO (permute vx vy)) (pts : List PermPoint) (x y : DNA) :
+    OO (permProposals permute pts x y) := by
+  unfold permProposals
   apply OO.bind
   · unfold pickPoint
     split
@@ -133,41 +203,22 @@ theorem OO_orderProposals (pts : List (Option Nat × Nat)) (x y : DNA) : OO (ord
       · exact OO.pure _
       · exact OO.fail _
   · intro t
-    unfold proposalsAt
     cases pts[t]? with
     | none => exact OO.fail _
     | some lk =>
-      obtain ⟨loc, k⟩ := lk
+      obtain ⟨loc, vx, vy⟩ := lk
       simp only []
-      apply OO.bind (OO_nextSample _ _)
-      intro ab
-      rcases ab with _ | ⟨a, _ | ⟨b, _ | ⟨c, r⟩⟩⟩
-      · exact OO.fail _
-      · exact OO.fail _
-      · simp only []
-        unfold proposalsFor
-        cases loc with
-        | none => exact OO.pure _
-        | some j =>
-          simp only []
-          cases elemOf x j with
-          | none => exact OO.fail _
-          | some ex =>
-            cases elemOf y j with
-            | none => exact OO.fail _
-            | some ey =>
-              simp only []
-              split
-              · exact OO.pure _
-              · exact OO.fail _
-      · exact OO.fail _
+      exact OO.bind (hp vx vy) (fun cs => OO_place _ _ _ _ _)
 
-theorem recOrder_spec (g : GSpec) (pop : Pop) (st : St) (out : Pop) (st' : St)
-    (h : recOrder g pop st = .ok (out, st')) :
+/-- a permutation recombinator returns its two parents (no permutation point) or children that passed
+`from_dict` and are new objects — whatever its `permutate` method proposes. -/
+theorem recPerm_spec (permute : List Nat → List Nat → M (List Nat × List Nat))
+    (hp : ∀ vx vy, OO (permute vx vy)) (g : GSpec) (pop : Pop) (st : St) (out : Pop) (st' : St)
+    (h : recPerm permute g pop st = .ok (out, st')) :
     (out = pop ∧ st' = st) ∨
     (st.nextUid ≤ st'.nextUid ∧
      ∀ y ∈ out, valid g y.dna = true ∧ aligned y.dna = true ∧ st.nextUid ≤ y.uid ∧ y.uid < st'.nextUid) := by
-  unfold recOrder at h
+  unfold recPerm at h
   split at h
   · split at h
     · exact ((fail_ok _ _ _).mp h).elim
@@ -176,12 +227,19 @@ theorem recOrder_spec (g : GSpec) (pop : Pop) (st : St) (out : Pop) (st' : St)
         exact Or.inl ⟨h.1.symm, h.2.symm⟩
       · rw [bind_ok] at h
         obtain ⟨raw, s1, h1, h2⟩ := h
-        have hu := OO_orderProposals _ _ _ st raw s1 h1
+        have hu := OO_permProposals permute hp _ _ _ st raw s1 h1
         obtain ⟨hle, hall⟩ := finishChildren_spec g raw s1 out st' h2
         refine Or.inr ⟨by omega, ?_⟩
         intro y hy
         obtain ⟨hv, ha, h1', h2'⟩ := hall y hy
         exact ⟨hv, ha, by omega, h2'⟩
   · exact ((fail_ok _ _ _).mp h).elim
+
+theorem recOrder_spec (g : GSpec) (pop : Pop) (st : St) (out : Pop) (st' : St)
+    (h : recOrder g pop st = .ok (out, st')) :
+    (out = pop ∧ st' = st) ∨
+    (st.nextUid ≤ st'.nextUid ∧
+     ∀ y ∈ out, valid g y.dna = true ∧ aligned y.dna = true ∧ st.nextUid ≤ y.uid ∧ y.uid < st'.nextUid) :=
+  recPerm_spec permuteOrder OO_permuteOrder g pop st out st' h
 
 end Pg.C14
